@@ -795,8 +795,9 @@ func parseTags(text string, basePos Position) []ast.Tag {
 			}
 		}
 
-		startCol := basePos.Column + 1 + tagStart
-		endCol := basePos.Column + 1 + tagEnd
+		// columns count UTF-16 code units; tagStart and tagEnd are byte offsets
+		startCol := basePos.Column + 1 + utf16Len(text[:tagStart])
+		endCol := basePos.Column + 1 + utf16Len(text[:tagEnd])
 
 		tags = append(tags, ast.Tag{
 			Name:  name,
@@ -811,6 +812,14 @@ func parseTags(text string, basePos Position) []ast.Tag {
 	}
 
 	return tags
+}
+
+func utf16Len(s string) int {
+	n := 0
+	for _, r := range s {
+		n += utf16Width(r)
+	}
+	return n
 }
 
 func isValidTagName(name string) bool {
